@@ -194,4 +194,30 @@ def badUnitWord (w : Bytes) : Bool :=
 /-- The text that may follow a defect: nothing, or a blank and anything. -/
 def tailOK (tl : Bytes) : Bool := match tl with | [] => true | c :: _ => c == 32
 
+/-! ## The same as trees: a configuration of `ConfOK` in which one string of one action is replaced -/
+
+/-- The rules `r, rs...` of a block as the tree the parser builds (OR nodes, nested to the left); likewise the actions of
+a rule (AND nodes). -/
+def rulesTree (r : CTree) (rs : List CTree) : CTree := rs.foldl (fun acc x => .or 1 acc x) r
+def actsTree (a : CTree) (as : List CTree) : CTree := as.foldl (fun acc x => .and 1 acc x) a
+
+/-- The block with the rules `rs`. -/
+def blockOfRules : List CTree → CTree
+  | [] => .emptyBlock 1
+  | r :: rs => .block 1 (rulesTree r rs)
+
+/-- The rule `match c a1 a2 ...`. -/
+def ruleOfActs (c : CTree) : List CTree → CTree
+  | [] => .mtch 1 c (.emptyBlock 1)
+  | a :: as => .mtch 1 c (actsTree a as)
+
+/-- The action of a site as a leaf of the tree. -/
+def ActSite.expr (b : Bytes) : ActSite → Expr
+  | .move => .move 1 b
+  | .flags => .flags 1 b
+  | .label l1 l2 => .label 1 (l1 ++ b :: l2)
+  | .exec si bo l1 l2 => .exec 1 si bo (l1 ++ b :: l2)
+  | .addHeaderKey v => .addHeader 1 b v
+  | .addHeaderValue k => .addHeader 1 k b
+
 end Mdsort.Spec
